@@ -110,14 +110,71 @@ def _run_pair(case):
         try:
             op = OperatingConditions(t_tot=case["t_tot"], cooling={"rate": case["rate"], "start": 20, "end": -50})
             S = Snowing(k={"int": 0, "ext": 0, "s0": case["s0"], "s_sigma_rel": 0}, opcond=op, configPath=f.name)
+            # observe (from outside) which utils function the loop calls at which step
+            import ethz_snow.snowing as _sn
+            U = _sn.Utils
+            calls = []
+            saved = (U.vapour_pressure_liquid, U.vapour_pressure_solid, U.vapour_flux)
+
+            def _wrap(name, fn):
+                def g(*a, **k):
+                    calls.append(name)
+                    return fn(*a, **k)
+                return g
+            U.vapour_pressure_liquid = _wrap("L", saved[0])
+            U.vapour_pressure_solid = _wrap("S", saved[1])
+            U.vapour_flux = _wrap("F", saved[2])
             try:
                 S.run()
                 out[conf] = {"S": S, "raise": None}
             except Exception as e:
                 out[conf] = {"S": S, "raise": core.exc_class(e)}
+            finally:
+                U.vapour_pressure_liquid, U.vapour_pressure_solid, U.vapour_flux = saved
+            out[conf]["calls"] = "".join(calls)
         finally:
             os.unlink(f.name)
     return out
+
+
+class _Stop(Exception):
+    pass
+
+
+def _first_call(dim):
+    """which vapour-pressure correlation the FIRST cooling step (all liquid, +20 C) of a VISF run calls;
+    the run is aborted at that call, so this costs milliseconds also in 2D"""
+    from ethz_snow.snowing import Snowing
+    from ethz_snow.operatingConditions import OperatingConditions
+    import ethz_snow.snowing as _sn
+
+    cfg = {"snowing_parameters": {"dimensionality": dim, "configuration": "VISF"},
+           "VISF": {"t_vac_start": 0.0, "t_vac_duration": 1.0}}
+    f = tempfile.NamedTemporaryFile("w", suffix=".yaml", delete=False)
+    yaml.safe_dump(cfg, f)
+    f.close()
+    U = _sn.Utils
+    saved = (U.vapour_pressure_liquid, U.vapour_pressure_solid)
+
+    def mk(n):
+        def g(T):
+            raise _Stop(n)
+        return g
+    U.vapour_pressure_liquid, U.vapour_pressure_solid = mk("liquid"), mk("solid")
+    try:
+        S = Snowing(k={"int": 0, "ext": 0, "s0": 50, "s_sigma_rel": 0},
+                    opcond=OperatingConditions(t_tot=3600, cooling={"rate": 0.5, "start": 20, "end": -50}),
+                    configPath=f.name)
+        try:
+            S.run()
+            return "none"
+        except _Stop as e:
+            return str(e)
+        except Exception as e:
+            return "raise:" + core.exc_class(e)
+    finally:
+        U.vapour_pressure_liquid, U.vapour_pressure_solid = saved
+        os.unlink(f.name)
 
 
 def run_impl(case):
@@ -140,10 +197,29 @@ def run_impl(case):
         return {"raise": None, "liquid": [float(x) for x in pl], "solid": [float(x) for x in ps],
                 "triple": [float(U.vapour_pressure_liquid(np.float64(273.16))),
                            float(U.vapour_pressure_solid(np.float64(273.16)))]}
+    if k == "correlation":
+        return {"raise": None, "first": {d: _first_call(d) for d in ("spatial_1D", "spatial_2D")}}
     if k == "window":
         pair = _run_pair(case)
         obs = {"raise": None, "runs": {c: pair[c]["raise"] for c in pair}}
         V, Sh = pair["VISF"], pair["shelf"]
+        obs["shelf_calls"] = len(Sh["calls"])
+        # per step: one pressure call (L = liquid curve, S = ice curve), followed by F when the flux is evaluated
+        cs = V["calls"]
+        steps = []
+        for ch in cs:
+            if ch == "F":
+                if steps:
+                    steps[-1] += "F"
+            else:
+                steps.append(ch)
+        n_l = next((i for i, x in enumerate(steps) if x[0] == "S"), len(steps))
+        obs["calls"] = {
+            "n_cool_steps": n_l, "n_solid_steps": len(steps) - n_l,
+            "liquid_after_solid": any(x[0] == "L" for x in steps[n_l:]),
+            "flux_cool": [i for i, x in enumerate(steps[:n_l]) if x.endswith("F")],
+            "flux_solid": [i for i, x in enumerate(steps[n_l:]) if x.endswith("F")],
+        }
         const = V["S"].const
         obs["const"] = {kk: float(const[kk]) for kk in ("p_vac", "kappa", "Dh_evaporation", "m_water", "k_B",
                                                          "t_vac_start", "t_vac_duration", "height", "lambda_solution",
@@ -200,6 +276,14 @@ def _evap(drv, fn, T):
     return [b2f(x) for x in r["val"]]
 
 
+def _stride_one(impl):
+    """every step recorded? (recording stride 1: the row spacing equals the code's time step)"""
+    c = impl["const"]
+    dz = c["height"] / 30
+    dt_code = 0.4 * dz ** 2 / (c["lambda_i"] / (c["cp_i"] * c["rho_l"]))
+    return "visf" in impl and impl["visf"]["dt"] is not None and abs(impl["visf"]["dt"] - dt_code) <= 1e-9 * dt_code
+
+
 def _window_inputs(case, impl):
     """inputs of the top-node model, from the returned constants (formulas of snowing.py l.608-631)"""
     c = impl["const"]
@@ -222,6 +306,9 @@ def run_model(drv, case):
         T = _grid()
         return {"raise": None, "liquid": _evap(drv, "liquid", T), "solid": _evap(drv, "solid", T),
                 "triple": [_evap(drv, "liquid", [273.16])[0], _evap(drv, "solid", [273.16])[0]]}
+    if k == "correlation":
+        # hand model EvapWindow.pVap: the cooling stage (liquid product) uses the liquid curve
+        return {"raise": None, "first": {"spatial_1D": "liquid"}}
     if k == "window":
         # the model needs the recorded profile of the real run: computed inside compare()
         return {"raise": None, "drv": drv}
@@ -247,8 +334,19 @@ def _model_steps(drv, case, impl, visf):
     r = drv.call(req)
     if "error" in r:
         raise RuntimeError(r["error"])
-    return {"inWindow": r["inWindow"], "q_e": [b2f(x) for x in r["q_e"]],
-            "next": [b2f(x) for x in r["T_top_next"]]}
+    out = {"inWindow": r["inWindow"], "q_e": [b2f(x) for x in r["q_e"]],
+           "next": [b2f(x) for x in r["T_top_next"]]}
+    # window flags of every step of both stages (the flag does not depend on the temperatures)
+    for stage, t0, nsteps in (("cooling", 0.0, impl["calls"]["n_cool_steps"]),
+                              ("solidification", v["t_nuc"], impl["calls"]["n_solid_steps"])):
+        req2 = dict(req)
+        req2.update({"stage": stage, "t0": f2b(t0), "i": list(range(nsteps)),
+                     "T_top": [f2b(273.15)] * nsteps, "T_below": [f2b(273.15)] * nsteps})
+        r2 = drv.call(req2)
+        if "error" in r2:
+            raise RuntimeError(r2["error"])
+        out["win_" + stage] = [i for i, b in enumerate(r2["inWindow"]) if b]
+    return out
 
 
 def compare(case, impl, model):
@@ -273,6 +371,10 @@ def compare(case, impl, model):
                     dis.append(f"{nm}[{i}]: impl {x!r} vs generated model {y!r}")
                     break
         return dis
+    if k == "correlation":
+        if impl["first"]["spatial_1D"] != model["first"]["spatial_1D"]:
+            dis.append(f"1D cooling stage calls the {impl['first']['spatial_1D']} curve, the window model the liquid curve")
+        return dis
     if k == "window":
         if "visf" not in impl:
             return dis
@@ -283,11 +385,26 @@ def compare(case, impl, model):
         v = impl["visf"]
         c = impl["const"]
         # guard: the step-by-step tie needs every step recorded (recording stride 1)
-        dz = c["height"] / 30
-        dt_code = 0.4 * dz ** 2 / (c["lambda_i"] / (c["cp_i"] * c["rho_l"]))
-        if abs(v["dt"] - dt_code) > 1e-9 * dt_code:
+        if not _stride_one(impl):
             return dis
         lo, hi = c["t_vac_start"] * 3600, (c["t_vac_start"] + c["t_vac_duration"]) * 3600
+        # which steps evaluate the flux, and which correlation each stage uses (observed calls of the real run)
+        cl = impl["calls"]
+        if cl["liquid_after_solid"]:
+            dis.append("the real run calls the liquid curve after the first call of the ice curve (model: cooling "
+                       "stage = liquid, solidification stage = ice)")
+        if cl["n_cool_steps"] != v["n_cool"] + 1:
+            dis.append(f"cooling stage: {cl['n_cool_steps']} liquid-curve calls vs {v['n_cool'] + 1} cooling steps")
+        for stage, key, t0 in (("cooling", "flux_cool", 0.0), ("solidification", "flux_solid", v["t_nuc"])):
+            got, want = cl[key], ms["win_" + stage]
+            if got != want:
+                bad = sorted(set(got) ^ set(want))
+                t = t0 + v["dt"] * bad[0]
+                if all(min(abs(t0 + v["dt"] * b - lo), abs(t0 + v["dt"] * b - hi)) <= 1e-9 * max(1.0, hi) for b in bad):
+                    dis.append(f"TIE: {stage} step {bad[0]} sits on the window boundary")
+                else:
+                    dis.append(f"{stage} stage: the real run evaluates the flux at {len(got)} steps, the model's window "
+                               f"holds at {len(want)}; first difference at step {bad[0]} (t={t:.3f}s, window {lo:.1f}-{hi:.1f}s)")
         for j, (pred, flag) in enumerate(zip(ms["next"], ms["inWindow"])):
             got = v["top"][j + 1] + 273.15
             if not (abs(pred - got) <= 1e-9 * max(1.0, abs(got))):
@@ -379,6 +496,18 @@ def predicates(case, impl):
         p = impl["pair"]
         c = impl["const"]
         lo, hi = c["t_vac_start"] * 3600, (c["t_vac_start"] + c["t_vac_duration"]) * 3600
+        if impl.get("shelf_calls"):
+            out.append(Failure(clause="no_evap_outside_window", key="no_evap_outside_window|_run_1D|shelf",
+                               detail=f"a shelf run called the evaporation helpers {impl['shelf_calls']} times"))
+        # the flux is evaluated only at steps whose time lies strictly inside the window
+        dtv, tn = impl["visf"]["dt"], impl["visf"]["t_nuc"]
+        for key, t0 in (("flux_cool", 0.0), ("flux_solid", tn)):
+            for i in (impl["calls"][key] if _stride_one(impl) else []):
+                t = t0 + dtv * i
+                if not (lo * (1 - 1e-9) < t < hi * (1 + 1e-9)):
+                    out.append(Failure(clause="no_evap_outside_window", key=f"no_evap_outside_window|_run_1D|{key}",
+                                       detail=f"flux evaluated at t={t:.3f}s outside the window ({lo:.3f},{hi:.3f})s"))
+                    break
         t_last = impl["visf"]["t_last"]
         never = not (hi > lo) or lo >= max(t_last, case["t_tot"]) * (1 + 1e-9)
         if never:
@@ -416,6 +545,11 @@ def predicates(case, impl):
 
 def classify(case, impl):
     tags = [f"kind={case['kind']}"]
+    if case["kind"] == "correlation":
+        for d, n in impl["first"].items():
+            tags.append(f"first-cooling-step({d})-calls={n}")
+        if impl["first"].get("spatial_2D") == "solid":
+            tags.append("F11-observed: 2D cooling stage uses the ice curve for a liquid surface (not a C20 clause; see C15)")
     if case["kind"] == "window":
         tags.append("runs=" + "/".join(str(impl["runs"][c]) for c in ("VISF", "shelf")))
         if "pair" in impl and "visf" in impl:
@@ -511,6 +645,7 @@ def _window_case(rng, cls=None):
 def cases(rng, tier):
     n_utils, n_win = (24, 10) if tier == "quick" else (400, 120)
     yield dict(kind="grid")
+    yield dict(kind="correlation")
     for _ in range(n_utils):
         yield _utils_case(rng)
     must = ["early", "straddle", "solid", "beyond", "empty"]
